@@ -9,15 +9,15 @@ TB = "TLC + CommunityModules overrides; the TLA+ transcription of the reference 
 CHECKS = {
     "C01": dict(level="model_checking", ref="3 C01",
                 tech="TLC trace validation of every encodable instruction against AvrIsa.tla (encode + independent mask/value decode); MC_Isa round-trip theorem",
-                text="Every legal one-word operand tuple of all 114 mnemonics (two-word address spaces: boundary + seeded random) is assembled by the real code and each result is judged by TLC against AvrIsa.tla: words equal Encode and the independent decoder returns the canonical form. The spec's own decode(encode)=canon theorem is model-checked (MC_Isa, 120k forms) and Encode was audited against llvm-mc.",
+                text="Every legal one-word operand tuple of all 114 mnemonics (two-word address spaces: boundary + seeded random) is assembled by the real code and each result is judged by TLC against AvrIsa.tla: words equal Encode and the independent decoder returns the canonical form. The spec's own decode(encode)=canon theorem is model-checked (MC_Isa, 120k forms) and Encode was audited against llvm-mc. Whole programs besides: per device and form sequences of forms with a label behind, and twin lines - the same instruction text twice with a .set variable reassigned, a .def alias bound anew or the location counter moved in between - judged by Trace_Asm.",
                 note=TB + "; AvrIsa.tla transcribes the AVR Instruction Set Manual"),
     "C04": dict(level="model_checking", ref="3 C04",
                 tech="TLC trace validation of illegal/legal operand windows, kind and count confusions against AvrIsa!Legal",
-                text="For every mnemonic, every register 0..31 in every register position, numeric windows of +-300 (thorough +-5000) around both ends of each field plus 2^k offsets and huge values, operand kind confusions and operand counts 0..3, on both cores; TLC accepts an event only if build outcome = EncodeResult (error iff not Legal, exact words otherwise; a panic is not an error).",
+                text="For every mnemonic, every register 0..31 in every register position, numeric windows of +-300 (thorough +-5000) around both ends of each field plus 2^k offsets and huge values, operand kind confusions and operand counts 0..3, on both cores; TLC accepts an event only if build outcome = EncodeResult (error iff not Legal, exact words otherwise; a panic is not an error). Twin lines (Trace_Asm): the same instruction text twice with a .def alias bound anew in between, to a register the mnemonic takes (other code) and to one it does not take (refused).",
                 note=TB),
     "C13": dict(level="model_checking", ref="3 C13",
                 tech="TLC trace validation of every device x every (mnemonic, addressing form) against Devices!Unavailable and AvrIsa",
-                text="All devices of the public table x all mnemonic/addressing forms; TLC requires error iff the device's documented flags take the form away, and otherwise exactly the words of the no-device encoding (one-word lds/sts on the reduced core); operands at both ends of every class; plus whole programs per device and form (other forms of the same mnemonic first, then the form, a label, a jump to it and its value) judged by Assembler!Run. Registers are also written through .def aliases (rebound inside .dseg as well).",
+                text="All devices of the public table x all mnemonic/addressing forms; TLC requires error iff the device's documented flags take the form away, and otherwise exactly the words of the no-device encoding (one-word lds/sts on the reduced core); operands at both ends of every class; plus whole programs per device and form (other forms of the same mnemonic first, then the form, a label, a jump to it and its value) judged by Assembler!Run. Registers are also written through .def aliases (rebound inside .dseg as well). Lines without effect (.csegsize, .pragma, #pragma), also from a macro body, between the device selection and forms the device has / lacks.",
                 note=TB + "; flag semantics as documented on the DisabledOptions type; ldd/std forms on the reduced core (Avr8l) excluded as unspecified; on Tiny1x parts a displacement operand is LDD/STD however the mnemonic is written"),
     "C02": dict(level="model_checking", ref="3 C02",
                 tech="TLC trace validation of whole-program builds against Assembler.tla (layout/emit state machine)",
@@ -45,7 +45,7 @@ CHECKS = {
                 note=TB + "; ill-formed chains not generated"),
     "C09": dict(level="model_checking", ref="3 C09",
                 tech="TLC trace validation of macro programs against the syntax-tree substitution of Assembler.tla",
-                text="40 macro bodies (register, repeated parameter, one operator of every precedence level on either side of the parameter, data, index forms, conditionals on parameters, nested calls with permuted parameters, bodies switching to the data and EEPROM segments) x seeded argument sets x five call placements x letter case of definition and call, plus missing-argument and undefined-macro variants; TLC expands on the syntax tree (argument substituted as a unit) and requires the same image or error. MC_Macro model-checks the specification's expansion against a purely textual flattening (HandExpanded) for 1.7e5 (thorough 1.5e6) programs. Calls in the data and EEPROM segments, bodies of symbol directives only, arguments with every binary operator, 63..300 calls per build are generated too.",
+                text="40 macro bodies (register, repeated parameter, one operator of every precedence level on either side of the parameter, data, index forms, conditionals on parameters, nested calls with permuted parameters, bodies switching to the data and EEPROM segments) x seeded argument sets x five call placements x letter case of definition and call, plus missing-argument and undefined-macro variants; TLC expands on the syntax tree (argument substituted as a unit) and requires the same image or error. MC_Macro model-checks the specification's expansion against a purely textual flattening (HandExpanded) for 1.7e5 (thorough 1.5e6) programs. Calls in the data and EEPROM segments, bodies of symbol directives only, arguments with every binary operator, 63..300 calls per build are generated too. Symbols spelled like registers (x, y, z, r5) passed in parentheses, directly, negated and through a nested call.",
                 note=TB + "; labels in bodies called twice, macros defined in bodies, unbounded recursion not generated"),
     "C10": dict(level="model_checking", ref="3 C10",
                 tech="TLC trace validation of symbol programs and their single-line deletion/duplication mutants against Assembler.tla",
@@ -53,7 +53,7 @@ CHECKS = {
                 note=TB + "; cross-kind clashes, .equ redefinition, .def of a bound alias not generated"),
     "C11": dict(level="model_checking", ref="3 C11",
                 tech="TLC trace validation of file trees (build_file) and their flattening (build_str) against Files.tla; paste theorem checked on every recorded tree",
-                text="Four base programs (symbols, a macro, device selection, conditionals, data, aliases) are cut at seeded safe positions into trees of up to 5 files / depth 3 and every file is placed in one of seven places (same directory, sub-directory in the path, caller-supplied directory, .includepath of the main file relative/absolute, .includepath declared in a nested file, path relative to the process directory), with optional .exit followed by garbage, plus missing-file variants; TLC requires build_file(tree) and build_str(flat) to equal the specification's results, the error of a missing file to name it, and RunTree(tree) = Run(flat). Also: chains of files nested up to the documented limit of 32 (33 is refused), a file included two and three times, capitalised names, an included file with a two-byte character across 8 KiB boundaries.",
+                text="Four base programs (symbols, a macro, device selection, conditionals, data, aliases) are cut at seeded safe positions into trees of up to 5 files / depth 3 and every file is placed in one of seven places (same directory, sub-directory in the path, caller-supplied directory, .includepath of the main file relative/absolute, .includepath declared in a nested file, path relative to the process directory), with optional .exit followed by garbage, plus missing-file variants; TLC requires build_file(tree) and build_str(flat) to equal the specification's results, the error of a missing file to name it, and RunTree(tree) = Run(flat). Also: chains of files nested up to the documented limit of 32 (33 is refused), a file included two and three times, capitalised names, an included file with a two-byte character across 8 KiB boundaries. Programs with one faulty line (unknown device, second device, undefined name, lacking instruction) cut into trees; include operands and .includepath with '..' in a file reached through a symbolic link to its directory (the specification is given the tree as the operating system shows it).",
                 note=TB + "; a name never exists in more than one searched directory; conditionals/macros not split across files"),
     "C12": dict(level="model_checking", ref="3 C12",
                 tech="TLC trace validation of capacity boundary programs for every device row against Devices!Fits; part-definition files compared with the table by TLC",
@@ -77,7 +77,7 @@ CHECKS = {
                 note=TB + "; results compared by digest; gating through the public stage functions"),
     "C18": dict(level="model_checking", ref="3 C18",
                 tech="TLC trace validation of recorded runs of the real binary (argv, exit status, files before/after, lexed HEX records) against Cli!Allowed with the IHex reader",
-                text="11 sources (valid, code+EEPROM, EEPROM only, empty, > 64 KiB, failing in parse/pass 2/limits/include, missing file) x three source path forms x six output locations for each of -o and -e (default, writable, existing file, missing parent, a directory, /dev/full) x -v: the binary built from /repo is run in a scratch tree, and TLC requires: failed build => nothing created or altered, something printed, exit status non-zero; successful build => flash file decodes (IHex reader) to exactly the library's image, EEPROM file iff non-empty image, nothing else changes, exit 0 unless an output is unwritable. Also: source file names with dots, spaces, no extension, reached through a symbolic link; the same file named for both images; an output cut short by a file size limit; images just over 1 MiB; the memory figures of the -v report against the library's for parts with and without EEPROM / SRAM.",
+                text="11 sources (valid, code+EEPROM, EEPROM only, empty, > 64 KiB, failing in parse/pass 2/limits/include, missing file) x three source path forms x six output locations for each of -o and -e (default, writable, existing file, missing parent, a directory, /dev/full) x -v: the binary built from /repo is run in a scratch tree, and TLC requires: failed build => nothing created or altered, something printed, exit status non-zero; successful build => flash file decodes (IHex reader) to exactly the library's image, EEPROM file iff non-empty image, nothing else changes, exit 0 unless an output is unwritable. Also: source file names with dots, spaces, no extension, reached through a symbolic link; the same file named for both images; an output cut short by a file size limit; images just over 1 MiB; the memory figures of the -v report against the library's for parts with and without EEPROM / SRAM. Also: images with whole rows of 0xFF / zeros, and the EEPROM output named as a hard link of the flash output (one file cannot hold both: reported, non-zero exit, flash file intact).",
                 note=TB + "; library images obtained in-process from build_file with the same include set"),
 }
 
